@@ -167,8 +167,8 @@ func TestVerifEnumC15Close(t *testing.T) {
 	log.SetOutput(io.Discard)
 	r := en.New()
 	defer r.Done()
-	r.Begin("conn-close", "SnowflakeConn.Close x {once, twice, three times, twice concurrently} x state of the session when Close is called {healthy, smux session already dead, stream already closed, packet conn already closed, collection already ended} on a real session with no proxy available: returns within a 60 s watchdog (re-run alone before it counts), no panic; afterwards the collection is stopped (Melted), no peer is held, the smux session and the packet conn are closed")
-	pres := []string{"healthy", "session-dead", "stream-closed", "pconn-closed", "collection-ended"}
+	r.Begin("conn-close", "SnowflakeConn.Close x {once, twice, three times, twice concurrently} x state of the session when Close is called {healthy, smux session already dead, stream already closed, packet conn already closed, collection already ended, an application Write of 200 kB blocked because nothing can be sent} on a real session with no proxy available: returns within a 60 s watchdog (re-run alone before it counts), no panic; afterwards the collection is stopped (Melted), no peer is held, the smux session and the packet conn are closed")
+	pres := []string{"healthy", "session-dead", "stream-closed", "pconn-closed", "collection-ended", "upload-stalled"}
 	for _, pre := range pres {
 		for _, mode := range []string{"once", "twice", "thrice", "concurrent"} {
 			if !r.Mine() {
@@ -200,6 +200,11 @@ func TestVerifEnumC15Close(t *testing.T) {
 					pconn.Close()
 				case "collection-ended":
 					peers.End()
+				case "upload-stalled":
+					// the application has written more than the session can send without a proxy (KCP's
+					// initial remote window is 32 packets): its Write is blocked when Close is called
+					go stream.Write(make([]byte, 200000))
+					time.Sleep(500 * time.Millisecond)
 				}
 				done := make(chan string, 4)
 				closer := func() {
